@@ -12,6 +12,9 @@
      Return(d)              frame d returns (PY_RETURN)
      Outcome(esc, n)        what the consumer of the API saw: escaped class | "Done", number of results
      CliOut(out, diag, exit) stdout class, number of "sharepoint2text: " lines on stderr, exit status
+     Helper(n)              n helper functions of the library (the image-dimension sniffers) were called directly on
+                            hostile bytes and came back (returned or raised an Exception, which the extractor above
+                            them wraps): nothing is required of a helper except that it comes back
 
    Every event is bound to the CORE operator of Surface with the logged arguments; the invariants
    are conjoined primed, so a step that lets a non-family exception through an API boundary, lets a
@@ -48,6 +51,8 @@ TCliOut ==
        \/ "Cli!PartialStdout" \in Deviations /\ exit = 1 /\ Ev.out = "partial"
     /\ UNCHANGED core
 
+THelper == IsEvent("Helper") /\ phase = "init" /\ UNCHANGED core
+
 \* as built only (open findings KF-C01-01..03): the execution was killed on its CPU budget AND the input lies in
 \* the narrow domain of a finding whose deviation is on (fields of the event = what the harness read from the input)
 TKnownSpin ==
@@ -62,7 +67,7 @@ TraceInit ==
     /\ stdout = "empty" /\ stderr = 0 /\ exit = NoExit /\ phase = "init"
 
 TraceNext ==
-    /\ (TEnter \/ TRaise \/ TWrap \/ TAbsorb \/ TUnwind \/ TYield \/ TReturn \/ TOutcome \/ TCliOut \/ TKnownSpin)
+    /\ (TEnter \/ TRaise \/ TWrap \/ TAbsorb \/ TUnwind \/ TYield \/ TReturn \/ TOutcome \/ TCliOut \/ TKnownSpin \/ THelper)
     /\ Inv_Surface' /\ Inv_MemberIsolation' /\ Inv_Cli' /\ Inv_WrapClass'
 
 TraceSpec == TraceInit /\ [][TraceNext]_tvars
